@@ -86,6 +86,8 @@ def generate(rng, tier):
             exact = rng.random() < 0.7
             cases.append({"kind": "mapset", "game": game, "maps": [M.gen_map_spec(rng, game, max_rows=3) for _ in range(rng.choice([1, 2, 3]))],
                           "by": rng.choice(EXACT if exact else ROUNDED), "exact": exact,
+                          # (osu charts of a set carry their own file-level fields: a set's rate must scale them too)
+                          "preview": rng.choice([1000, 2500, 12345, -1]), "samples": [M.rand_time(rng) for _ in range(rng.choice([1, 3]))],
                           "sm": {"offset": rng.choice([0.0, 500.0, -250.0, 1234.5, None]), "sample_start": rng.choice([0.0, 10000.0, 2500.0]),
                                  "sample_length": rng.choice([10000.0, 5000.0])}})
     return cases
@@ -136,11 +138,14 @@ def execute(case):
     out = {"checks": []}
     if case["kind"] == "mapset":
         maps = [M.build_map(s) for s in case["maps"]]
+        if case["game"] == "osu" and "preview" in case:
+            maps = [_prep(case, m) for m in maps]
         ms = M.build_mapset(case["game"], maps)
         if case["game"] == "sm":
             ms.offset, ms.sample_start, ms.sample_length = case["sm"]["offset"], case["sm"]["sample_start"], case["sm"]["sample_length"]
             ms.title, ms.selectable = "t", False
         fb = [_frames(m, it) for m in maps]
+        osu_src = [_osu_file(m, it) for m in maps] if case["game"] == "osu" and "preview" in case else None
         if case["game"] == "sm":
             src = _sm_file(ms, it)
         else:
@@ -148,6 +153,11 @@ def execute(case):
         r = ms.rate(by)
         out["types_ok"] = type(r) is type(ms) and len(r.maps) == len(maps) and all(type(a) is type(b) for a, b in zip(r.maps, maps))
         fa = [_frames(m, it) for m in ms.maps]
+        if osu_src is not None and len(r.maps) == len(maps):
+            # every osu chart of the set: the same file-level check as for a single chart
+            for k, (m, m2) in enumerate(zip(maps, r.maps)):
+                out["checks"].append({"t": "osu", "src": osu_src[k], "out": _osu_file(m2, it), "after": _osu_file(m, it),
+                                      "fb": fb[k], "fa": fa[k]})
         if case["game"] == "sm":
             out["checks"].append({"t": "sm", "src": src, "out": _sm_file(r, it), "after": _sm_file(ms, it), "fb": fb, "fa": fa})
         else:
